@@ -551,9 +551,75 @@ const NASTY: &[&[u8]] = &[
     b"$ORIGIN", b"$ORIGIN\n", b"$ORIGIN a b\n", b"$TTL", b"$TTL x\n", b"$TTL 1 2\n", b"$INCLUDE", b"$INCLUDE f\n", b"$INCLUDE f a. b\n", b"$UNKNOWN\n",
     b"@", b"@ IN", b"@ IN A", b"@ IN A 1.2.3\n", b". 1 IN TYPE1 \\# 4 00\n", b". IN TYPE65536 \\# 0\n", b". IN A \\# 4 01020304\n", b". IN TXT \\# 2 0161\n",
     b". IN DS 1 1 1 zz\n", b". IN DNSKEY 1 1 1 ====\n", b". IN NSEC3 1 0 0 - zzzz A\n", b". IN SOA . . 1 2 3 4\n", b". 99999999999 IN A 1.1.1.1\n", b". IN IN A 1.1.1.1\n",
+    b"a..b 3600 IN A 192.0.2.1\n", b"c. 3600 IN CNAME x..y.\n", b"a.b.. IN NS ..\n", b"m 1 IN MX 1 a..\n", b"\\046..x IN A 1.1.1.1\n",
     b"\r", b"\r\n", b"a\rb\n", b"\x00", b"\xff\xfe", b"a.\x80. IN A 1.1.1.1\n", b";\n;", b" \t \n", b"\n\n\n", b"a. IN TXT \"\xc3\x28\"\n", b". IN CAA 0 issue\n", b". IN SVCB 1 . key=\n",
     b". IN HTTPS 1 . alpn=\n", b". IN IPSECKEY 1 3 1 . AA==\n", b". IN NAPTR 1 1 \"\" \"\" \"\" .\n", b". IN TLSA 1 1 1\n", b". IN ZONEMD 1 1 1 00\n", b". IN NSEC . TYPE0\n", b". IN NSEC . A A\n",
 ];
+
+/// Every name in every entry the reader returns is a valid name: the octets the owner composes
+/// to pass the independent validator and agree with its label iteration, and the RDATA of known
+/// types decodes (embedded names included) with the independent decoder.
+fn entries_well_formed(text: &[u8], origin: Option<&[u8]>, allow_invalid: bool) -> Result<usize, String> {
+    use domain::base::name::ToName;
+    use domain::base::rdata::ComposeRecordData;
+    use domain::zonefile::inplace::Entry;
+    let mut zf = Zonefile::from(text);
+    if allow_invalid {
+        zf = zf.allow_invalid();
+    }
+    if let Some(o) = origin {
+        zf.set_origin(Name::from_octets(Bytes::copy_from_slice(o)).map_err(|e| e.to_string())?);
+    }
+    let mut n = 0usize;
+    loop {
+        if n > text.len() + 2 {
+            return Ok(n);
+        }
+        match zf.next_entry() {
+            Ok(Some(Entry::Record(r))) => {
+                n += 1;
+                let mut raw = Vec::new();
+                r.owner().compose(&mut raw).map_err(|_| "compose".to_string())?;
+                if let Err(e) = w::validate_abs_name(&raw) {
+                    return Err(format!("owner of entry {} composes to {} which is not a valid name: {:?}", n, hex(&raw[..raw.len().min(80)]), e));
+                }
+                if raw != r.owner().to_vec().as_slice() {
+                    return Err(format!("owner of entry {} composes to {} but iterates as {}", n, hex(&raw[..raw.len().min(80)]), w::name_text(r.owner().to_vec().as_slice())));
+                }
+                // the RDATA goes on the wire and comes back through the library's own parser as it
+                // was (an embedded "name" with an empty label inside ends early and leaves octets over)
+                let t = r.rtype().to_int();
+                let mut rd = vec![0u8; 12];
+                r.data().compose_rdata(&mut rd).map_err(|_| "compose".to_string())?;
+                let back = (|| -> Result<Vec<u8>, String> {
+                    use domain::base::rdata::ParseAnyRecordData;
+                    let mut p = octseq::parse::Parser::from_ref(&rd[..]);
+                    p.advance(12).map_err(|e| e.to_string())?;
+                    let d = domain::rdata::AllRecordData::<&[u8], domain::base::name::ParsedName<&[u8]>>::parse_any_rdata(r.rtype(), &mut p).map_err(|e| e.to_string())?;
+                    if p.remaining() != 0 {
+                        return Err(format!("{} octets left over", p.remaining()));
+                    }
+                    let mut b = Vec::new();
+                    d.compose_rdata(&mut b).map_err(|_| "compose".to_string())?;
+                    Ok(b)
+                })();
+                // (only types that embed names are judged: what else the scanner admits and the
+                // wire parser refuses, like a ZONEMD digest of one octet, is not about names)
+                // (RFC 3597 generic data is carried as opaque octets whatever its type: no name value exists there)
+                let has_names = w::layout(t).map_or(false, |l| l.iter().any(|f| matches!(f, w::F::Name { .. } | w::F::IpsecGateway))) && !matches!(r.data(), domain::rdata::ZoneRecordData::Unknown(_));
+                match back {
+                    _ if !has_names => {}
+                    Ok(b) if b[..] == rd[12..] => {}
+                    Ok(_) => return Err(format!("RDATA of entry {} (type {}) is {} and reads back from the wire as something else", n, w::type_name(t), hex(&rd[12..rd.len().min(92)]))),
+                    Err(e) => return Err(format!("RDATA of entry {} (type {}) is {} which the library's own wire parser refuses: {}", n, w::type_name(t), hex(&rd[12..rd.len().min(92)]), e)),
+                }
+            }
+            Ok(Some(_)) => n += 1,
+            Ok(None) => return Ok(n),
+            Err(_) => return Ok(n),
+        }
+    }
+}
 
 fn hostile_one(c: &mut Ctx, fam: &str, idx: u64, text: &[u8], kind: &str) {
     ctx::slot_write(idx, &format!("{}|{}", fam, kind), text);
@@ -585,6 +651,19 @@ fn hostile_one(c: &mut Ctx, fam: &str, idx: u64, text: &[u8], kind: &str) {
             Ok(Ok(v)) => {
                 c.count("hostile_accepted", 1);
                 c.sig(&("ok", v.len().min(5), kind));
+            }
+        }
+        ctx::step("entries well-formed");
+        match ctx::catch(|| entries_well_formed(text, if with_origin { Some(&[7, b'e', b'x', b'a', b'm', b'p', b'l', b'e', 0][..]) } else { None }, with_origin)) {
+            Ok(Ok(n)) => c.count("hostile_entries_checked_for_valid_names", n as u64),
+            Ok(Err(e)) => {
+                let cls = if e.contains("owner") { "owner" } else { "rdata" };
+                let rp = c.replay_of(fam, idx, ex());
+                c.violation(&format!("reader-yields-invalid-name:{}", cls), &e, rp);
+            }
+            Err(pi) => {
+                let rp = c.replay_of(fam, idx, ex());
+                c.violation(&format!("panic:{}", pi.site()), &format!("panic inspecting the entries of a zone file ({}): {} at {}:{}", kind, pi.msg, pi.file, pi.line), rp);
             }
         }
     }
